@@ -1154,9 +1154,11 @@ func (fr *Frame) exec(b *ssa.BasicBlock, st *State, ins ssa.Instruction) {
 			d := fr.deferred[i]
 			if d.Block().Dominates(b) {
 				fr.execCall(b, st, d)
-			} else if d.Block() != b {
+			} else if d.Block() != b && fc.ancestors(b)[d.Block()] {
+				// the defer statement lies on some but not all paths to this return
 				fc.unsupported("conditional defer")
 			}
+			// otherwise the defer statement cannot have been executed on any path to this return
 		}
 	case *ssa.Go:
 		fc.unsupported("go statement")
